@@ -145,7 +145,7 @@ func runC09(c *Ctx) {
 				if g, ok := st.Addr.(*ssa.Global); ok {
 					if isRepoPath(g.Pkg.Pkg.Path()) && !strings.HasPrefix(g.Name(), "init$") {
 						nWrites++
-						c.obI("R09.1", st, "global-"+g.Name(), false, "request-reachable code never writes package-level variables", "store to "+short(g.String()))
+						c.obD("R09.1", st, "global-"+g.Name(), false, "request-reachable code never writes package-level variables", "store to "+short(g.String()))
 					}
 					continue
 				}
@@ -153,7 +153,7 @@ func runC09(c *Ctx) {
 				if fv, ok := st.Addr.(*ssa.FreeVar); ok {
 					if cell := freeVarCell(fv); cell != nil && !reach[cell.Parent()] {
 						nWrites++
-						c.obI("R09.1", st, "captured-"+cell.Comment, false,
+						c.obD("R09.1", st, "captured-"+cell.Comment, false,
 							"request-reachable closures never write variables of the (construction-time) function that created them: such a variable is shared by all requests",
 							"store to variable '"+cell.Comment+"' of "+short(cell.Parent().String())+", which is shared by every request served by this closure")
 					}
@@ -171,7 +171,7 @@ func runC09(c *Ctx) {
 						}
 						nWrites++
 						okE := base != nil && isFresh(fn, base)
-						c.obI("R09.1", st, "element-write-"+typeFullName(en), okE, "request-reachable code never replaces or reorders the entries of a shared table (a slice received from a caller or held in a structure shares its backing array with every other request)", "store of a whole "+typeFullName(en)+" into an element of a slice that was not made in this function")
+						c.obD("R09.1", st, "element-write-"+typeFullName(en), okE, "request-reachable code never replaces or reorders the entries of a shared table (a slice received from a caller or held in a structure shares its backing array with every other request)", "store of a whole "+typeFullName(en)+" into an element of a slice that was not made in this function")
 						continue
 					}
 				}
@@ -192,7 +192,7 @@ func runC09(c *Ctx) {
 				default:
 					ok, why = false, "store to field "+key+" through a pointer that is neither a per-request object nor freshly allocated here"
 				}
-				c.obI("R09.1", st, "write-"+key, ok, "request-reachable code writes only per-request objects or objects it has just allocated — never a field of a shared structure", why)
+				c.obD("R09.1", st, "write-"+key, ok, "request-reachable code writes only per-request objects or objects it has just allocated — never a field of a shared structure", why)
 			case *ssa.Slice:
 				// (f) x[:0] of a slice the function did not make, then appended to: the "filter in place" idiom writes
 				// into the caller's backing array (e.g. the route's Produces list, shared by every request)
@@ -208,7 +208,7 @@ func runC09(c *Ctx) {
 				for _, ci := range callsIn(fn, "builtin append") {
 					if reachesThroughAppends(ci.Common().Args[0], st, map[ssa.Value]bool{}) {
 						nWrites++
-						c.obI("R09.1", ci, "append-into-foreign-storage", false, "request-reachable code never appends into x[:0] of a slice it did not make: that overwrites the elements of a backing array shared with the caller (and with every other request)", "in-place filter over "+describe(st.X))
+						c.obD("R09.1", ci, "append-into-foreign-storage", false, "request-reachable code never appends into x[:0] of a slice it did not make: that overwrites the elements of a backing array shared with the caller (and with every other request)", "in-place filter over "+describe(st.X))
 					}
 				}
 			case *ssa.MapUpdate:
@@ -234,7 +234,7 @@ func runC09(c *Ctx) {
 				}
 				if shared != "" {
 					nWrites++
-					c.obI("R09.1", st, "map-write", false, "request-reachable code never updates a shared map", "update of a map held in "+shared)
+					c.obD("R09.1", st, "map-write", false, "request-reachable code never updates a shared map", "update of a map held in "+shared)
 				}
 			}
 		}
@@ -343,7 +343,7 @@ func ruleR09_2(c *Ctx) {
 			continue
 		}
 		n++
-		okCopy, okParams := false, false
+		okCopy, okParams, pooled := false, false, false
 		for _, st := range fieldStores(lk, matchedRouteT, "routeEntry") {
 			if st.Addr.(*ssa.FieldAddr).X != ssa.Value(al) {
 				continue
@@ -357,11 +357,37 @@ func ruleR09_2(c *Ctx) {
 				continue
 			}
 			okParams = freshSlice(st.Val, 0)
+			if !okParams {
+				// memory handed out by a pool (or any other library call) is shared by definition
+				isLibCall := func(v ssa.Value) bool {
+					call := asCall(v)
+					if call == nil || call.Call.IsInvoke() {
+						return false
+					}
+					sc := call.Call.StaticCallee()
+					return sc != nil && !isRepoPath(fnPkgPath(sc))
+				}
+				for _, o := range originsOf(st.Val) {
+					if isLibCall(o.V) {
+						pooled = true
+					}
+					if ad, isLd := derefLoad(o.V); isLd { // *ptr with ptr handed out by a library call (sync.Pool.Get …)
+						for _, o2 := range originsOf(ad) {
+							if isLibCall(o2.V) {
+								pooled = true
+							}
+						}
+					}
+				}
+			}
 		}
 		c.obI("R09.2", al, "entry-copied", okCopy, "the MatchedRoute embeds a copy (*entry) of the shared route entry, never the entry itself", "")
+		if pooled {
+			c.definite = true
+		}
 		c.obI("R09.2", al, "params-fresh", okParams, "the path parameters are built by this call (nil + append): they are not pooled or shared memory", "Params originate from memory that outlives or is shared between lookups")
 	}
-	c.obF("R09.2", lk, "has-success-return", n >= 1, "Lookup can succeed", "")
+	c.obRF("R09.2", lk, "has-success-return", n >= 1, "Lookup can succeed", "")
 	// the route stored under ctxMatchedRoute comes from the router
 	ri := p.Fn("(*rt/middleware.Context).RouteInfo")
 	mrKey := int64Const(p, "rt/middleware", "ctxMatchedRoute")
@@ -401,7 +427,7 @@ func ruleR09_3(c *Ctx) {
 	hf := p.Fn("(*rt/middleware.routableUntypedAPI).HandlerFor")
 	locks := callsIn(hf, "(*sync.Mutex).Lock")
 	unlocks := callsIn(hf, "(*sync.Mutex).Unlock")
-	c.obF("R09.3", hf, "locks", len(locks) == 1 && len(unlocks) >= 1, "HandlerFor takes the handler-table lock", fmt.Sprintf("%d Lock, %d Unlock", len(locks), len(unlocks)))
+	c.obRF("R09.3", hf, "locks", len(locks) == 1 && len(unlocks) >= 1, "HandlerFor takes the handler-table lock", fmt.Sprintf("%d Lock, %d Unlock", len(locks), len(unlocks)))
 	if len(locks) != 1 {
 		return
 	}
@@ -457,7 +483,7 @@ func ruleR09_45(c *Ctx) {
 			n++
 			c.obI("R09.4", call, "reset-only-security-keys", sec[k], "ResetAuth overwrites only the principal and scopes keys: the route, content type, response format and bound parameters memoised for the request stay (a body consumed once is not bound again)", fmt.Sprintf("ResetAuth overwrites context key %d", k))
 		}
-		c.obF("R09.4", ra, "reset-writes", n == 2, "ResetAuth overwrites the two security keys", fmt.Sprintf("%d writes", n))
+		c.obRF("R09.4", ra, "reset-writes", n == 2, "ResetAuth overwrites the two security keys", fmt.Sprintf("%d writes", n))
 	}
 	p := c.P
 	memos := []memo{
@@ -506,7 +532,7 @@ func ruleR09_45(c *Ctx) {
 				written[k] = typeStr(unboxed(call.Call.Args[2]).Type())
 			}
 		}
-		c.obF("R09.4", f, "memoises", len(reads) == 1 && len(writes) == 1, "the accessor has one cache read and one cache write", fmt.Sprintf("%d reads, %d writes", len(reads), len(writes)))
+		c.obRF("R09.4", f, "memoises", len(reads) == 1 && len(writes) == 1, "the accessor has one cache read and one cache write", fmt.Sprintf("%d reads, %d writes", len(reads), len(writes)))
 		if len(reads) != 1 || len(writes) != 1 {
 			continue
 		}
@@ -532,7 +558,7 @@ func ruleR09_45(c *Ctx) {
 		miss := negate(hit)
 		// R09.5 computing call only on miss
 		comps := callsIn(f, m.compute...)
-		c.obF("R09.5", f, "computes", len(comps) == 1, "the accessor has one computing call", fmt.Sprintf("%d", len(comps)))
+		c.obRF("R09.5", f, "computes", len(comps) == 1, "the accessor has one computing call", fmt.Sprintf("%d", len(comps)))
 		for _, k := range comps {
 			c.obI("R09.5", k, "compute-only-on-miss", guardedBy(k, rd, miss), "the stage is recomputed only when the request context holds no result yet (cache-miss edge)", "the computing call is reachable although a cached result exists: the stage would run twice (body consumed twice / authenticator consulted again)")
 		}
@@ -603,11 +629,15 @@ func ruleR09_45(c *Ctx) {
 			c.obI("R09.4", call, "reader-key", ok && k == key, "the accessor reads "+rd.key, fmt.Sprintf("reads key %d", k))
 			for _, ref := range *call.Referrers() {
 				if ta, isTA := ref.(*ssa.TypeAssert); isTA {
-					c.obI("R09.4", ta, "reader-type", typeStr(ta.AssertedType) == written[key], "the type asserted by the reader is the type its writer stores", "reads "+typeStr(ta.AssertedType)+", writer stores "+written[key])
+					if written[key] == "" || written[key] == "any" || written[key] == "interface{}" {
+						c.obRI("R09.4", ta, "reader-type", false, "the type asserted by the reader is the type its writer stores", "the writer of this key could not be identified (its WithValue call does not name the key constant)")
+					} else {
+						c.obI("R09.4", ta, "reader-type", typeStr(ta.AssertedType) == written[key], "the type asserted by the reader is the type its writer stores", "reads "+typeStr(ta.AssertedType)+", writer stores "+written[key])
+					}
 				}
 			}
 		}
-		c.obF("R09.4", f, "reader-reads", n == 1, "the accessor reads the request context once", "")
+		c.obRF("R09.4", f, "reader-reads", n == 1, "the accessor reads the request context once", "")
 	}
 	c.min("R09.4", 20)
 	c.min("R09.5", 12)
@@ -693,7 +723,7 @@ func ruleMemoContextRooted(c *Ctx, rule string) {
 			ok, why := rooted(ci.Common().Args[0], 6)
 			c.obI(rule, ci, "memo-context-rooted-in-given-request", ok, "the context a stage result is stored into derives from the Context() of the request the accessor was given (through WithValue steps only), so the request handed back carries this stage's result on top of what the caller's request already carried — nothing cached by another stage's private copy", why)
 		}
-		c.obF(rule, f, "memo-writes", n >= 1, "the accessor stores its result in a derived context", "")
+		c.obRF(rule, f, "memo-writes", n >= 1, "the accessor stores its result in a derived context", "")
 	}
 }
 
